@@ -519,7 +519,8 @@ impl GlobalInferenceCtx<'_> {
                 self.replace_weak_tys(body, new_ty);
             }
             Expr::Deref { pointer } => {
-                let mutable = self.tys[self.loc].expr_tys[expr]
+                // the pointer keeps its own mutability, only the type it points to is replaced
+                let mutable = self.tys[self.loc].expr_tys[pointer]
                     .as_pointer()
                     .map(|(mutable, _)| mutable)
                     .unwrap_or_default();
